@@ -1054,8 +1054,26 @@ func (e *c13Env) pagedShape(obs *c13PullObs, docSeq, evSeq uint64, staleDoc bool
 // client held it - not about the history as a whole.
 func (e *c13Env) classifyStale(d *c13Doc, last, now *c13Snap, obs *c13PullObs) string {
 	if last == nil || !last.Visible[d.ID] {
-		// obtained and lost within this (paged) pull
-		return e.pagedShape(obs, d.Seq, d.Seq, true)
+		// obtained and lost within this pull
+		if shape := e.pagedShape(obs, d.Seq, d.Seq, true); shape != "" {
+			return shape
+		}
+		if last != nil {
+			held := e.cl.Replica[d.ID]
+			cur := d.Rev
+			if e.cl.UseCV {
+				cur = d.CV
+			}
+			for _, c := range now.UserCh {
+				if held != cur && (e.gainedSeq[c] > 0 || e.grantChanged[c]) {
+					// a removal row of one channel listed a superseded revision that the user may read through a
+					// channel granted since the previous pull; the back-fill of that channel omits the later
+					// removal / deletion of the document
+					return "channel-granted-between-pulls|superseded-revision-obtained-from-a-removal-row|later-removal-omitted-from-the-back-fill"
+				}
+			}
+		}
+		return ""
 	}
 	var held []string // channels through which the client held the document at the previous pull
 	for _, c := range append(append([]string{}, last.Ch[d.ID]...), c13Star) {
